@@ -68,7 +68,7 @@ def l1_l3(prog, rep):
                     a0, a1 = sh(norm(e.arg(0))), sh(norm(e.arg(1)))
                     if a0 == "stream->pblk" and norm(e.arg(1))[0] == "v":       # the nonce parameter
                         ok = f.name == "crypto_aesctr_init2"
-                    elif a0 == "(stream->pblk+8)" and a1 == "(stream->bytectr/16)":
+                    elif a0 == "(stream->pblk+8)" and a1 == "(stream->bytectr>>4)":
                         # only when the low byte wrapped
                         ok = any(op == "==" and sh(L) == "stream->pblk[15]" and R == ("c", 0) for cond, truth in f.edge_conds(e) for op, L, R, _, _ in cond_atoms(cond, truth))
                 elif kind == "call" and e.callee == "memcpy" and sh(norm(e.arg(0))) == "(stream->pblk+8)" and norm(e.arg(2)) == ("c", 8):
@@ -85,7 +85,7 @@ def l1_l3(prog, rep):
                         ctr = norm(encs[0].arg(1))
                         init = [x for x in f.all_elems() if x.is_assign and x.op == "=" and norm(x.kid(0)) == ctr]
                         inc = [x for x in f.all_elems() if x.is_incdec and norm(x.kid(0)) == ctr]
-                        ok = len(init) == 1 and sh(norm(init[0].kid(1))) == "(stream->bytectr/16)" and len(inc) == 1 and inc[0].op in ("post++", "pre++")
+                        ok = len(init) == 1 and sh(norm(init[0].kid(1))) == "(stream->bytectr>>4)" and len(inc) == 1 and inc[0].op in ("post++", "pre++")
                         # the increment happens once per iteration, after the encoding
                         ok = ok and inc[0].block.id in f.reach_from(encs[0].block.id)
                 elif kind == "store" and e.is_incdec and sh(norm(e.kid(0))) == "stream->pblk[15]" and e.op in ("post++", "pre++"):
@@ -155,13 +155,16 @@ def l2_l4(prog, rep):
     rep.check(adv == want and not loopstores, "L4-position", "use: bytectr, both cursors and the remaining length move by exactly the bytes used, once, after the loop", use.loc, "%s" % adv, function=use.name, construct="advance")
     pre = u.func("crypto_aesctr_stream_pre_wholeblock")
     bm = [e for e in pre.all_elems() if e.is_assign and sh(norm(e.kid(0))) == "bytemod"]
-    ok = len(bm) == 1 and sh(norm(bm[0].kid(1))) == "(stream->bytectr%16)"
+    ok = len(bm) == 1 and sh(norm(bm[0].kid(1))) == "(stream->bytectr&15)"
     calls = sorted(pre.calls("crypto_aesctr_stream_cipherblock_use"), key=lambda c: c.line)
     ok = ok and len(calls) == 2 and [sh(norm(a)) for a in calls[0].args[4:]] == ["*buflen_p", "bytemod"] and [sh(norm(a)) for a in calls[1].args[4:]] == ["(16-bytemod)", "bytemod"]
     if ok:
         g0 = [(op, sh(L), sh(R)) for cond, truth in pre.edge_conds(calls[0]) for op, L, R, _, _ in cond_atoms(cond, truth)]
         g1 = [(op, sh(L), sh(R)) for cond, truth in pre.edge_conds(calls[1]) for op, L, R, _, _ in cond_atoms(cond, truth)]
-        ok = ("!=", "bytemod", "0") in g0 and any(o == "<=" and l in ("(bytemod+*buflen_p)", "(*buflen_p+bytemod)") and r == "16" for o, l, r in g0) and any(o == ">" and l in ("(bytemod+*buflen_p)", "(*buflen_p+bytemod)") and r == "16" for o, l, r in g1) and ("!=", "bytemod", "0") in g1
+        # bytemod + n <= 16, or the same test with bytemod moved across (no wrap-around: bytemod = bytectr & 15, tested non-zero)
+        def fits(o, l, r, want):
+            return o == want and ((l in ("(bytemod+*buflen_p)", "(*buflen_p+bytemod)") and r == "16") or (l == "*buflen_p" and r == "(16-bytemod)"))
+        ok = ("!=", "bytemod", "0") in g0 and any(fits(o, l, r, "<=") for o, l, r in g0) and any(fits(o, l, r, ">") for o, l, r in g1) and ("!=", "bytemod", "0") in g1
         r1 = [r for r in pre.returns() if norm(r.kid(0)) == ("c", 1)]
         ok = ok and len(r1) == 1 and pre.dominates(calls[0], r1[0])
     rep.check(ok, "L4-position", "pre_wholeblock: continue the current cipherblock at offset bytectr % 16, finishing the request or the block", pre.loc, "", function=pre.name, construct="pre")
@@ -189,12 +192,12 @@ def l2_l4(prog, rep):
     stv = [c for c in w.calls("_mm_storeu_si128")]
     ok = len(ld) == 1 and len(stv) == 1 and sh(norm(ld[0].arg(0))) == "*inbuf" and sh(norm(stv[0].arg(0))) == "*outbuf" and w.dominates(ld[0], stv[0]) and ld[0].block.id == stv[0].block.id
     adv = sorted((sh(norm(e.kid(0))), e.op, sh(norm(e.kid(1)))) for e in w.all_elems() if e.is_assign and e.op in ("+=", "-="))
-    okadv = ("*inbuf", "+=", "16") in adv and ("*outbuf", "+=", "16") in adv and ("*buflen", "-=", "(num_blocks*16)") in adv and ("stream->bytectr", "+=", "(num_blocks*16)") in adv
+    okadv = ("*inbuf", "+=", "16") in adv and ("*outbuf", "+=", "16") in adv and ("*buflen", "-=", "(num_blocks<<4)") in adv and ("stream->bytectr", "+=", "(num_blocks<<4)") in adv
     if ok:
         ia = [e for e in w.all_elems() if e.is_assign and sh(norm(e.kid(0))) in ("*inbuf", "*outbuf")]
         ok = all(w.dominates(stv[0], e) for e in ia)
     nb = [e for e in w.all_elems() if e.is_assign and sh(norm(e.kid(0))) == "num_blocks"]
-    oknb = len(nb) == 1 and sh(norm(nb[0].kid(1))) == "(*buflen/16)"
+    oknb = len(nb) == 1 and sh(norm(nb[0].kid(1))) == "(*buflen>>4)"
     rep.check(ok and okadv and oknb, "L2-inplace", "AES-NI: load 16 input bytes, then store 16 output bytes, then advance both cursors; totals 16 * (buflen / 16)", w.loc, "%s" % adv, function=w.name, construct="aesni-loop")
     sn = nu.func("crypto_aesctr_aesni_stream")
     seq = [c.callee for c in sorted(sn.calls(), key=lambda c: c.line) if c.callee and c.callee.startswith("crypto_aesctr_")]
